@@ -504,6 +504,26 @@ TrigHb(c) ==
   /\ tb' = tb - 1
   /\ UNCHANGED <<cfg, fb>>
 
+\* session set-up fails. (a) the initial OffsetFetch of the session's offset manager fails for good (ManagePartition error):
+\* release(false) - no Setup, no Cleanup, heartbeat loop (already running) stopped - and Consume returns the error;
+\* (b) the handler's Setup returns an error: release(true) - Cleanup runs - and Consume returns the error. No claim starts.
+SetupFailKinds == {"ofetch_fail", "ofetch_fail_conn", "ofetch_fail_close", "setup_error", "setup_error_close"}
+SetupFail(c, kind) ==
+  LET x == cl[c]
+      inHandler == kind \in {"setup_error", "setup_error_close"}
+      closes == kind \in {"ofetch_fail_close", "setup_error_close"} IN
+  /\ kind \in TrigKinds /\ CanTrig(c) /\ x.claims # {} /\ x.closed = "no"
+  /\ x.pc = IF inHandler THEN "insetup" ELSE "setup"
+  /\ cl' = [cl EXCEPT ![c].pc = IF Bug = "setup_fail_blocks_release" THEN "stuck" ELSE "reterr",
+                      ![c].hb = "off", ![c].ctx = TRUE, ![c].trig = 1,
+                      ![c].closed = IF closes THEN "closing" ELSE @]
+  /\ Emitting((IF inHandler THEN <<[ev |-> "setup_fail", c |-> c]>> ELSE <<>>)
+              \o (IF closes THEN <<[ev |-> "close_call", c |-> c]>> ELSE <<>>)
+              \o (IF inHandler /\ Bug # "setup_fail_blocks_release" THEN <<[ev |-> "cleanup", c |-> c]>> ELSE <<>>))
+  /\ script' = RecTrig(script, c, kind, IF inHandler THEN "setup" ELSE "sync")
+  /\ tb' = tb - 1
+  /\ UNCHANGED <<cfg, co, fb>>
+
 \* environment: the group's coordinator migrates to the other broker while a session runs (optionally followed at once by
 \* an application cancel); FindCoordinator answers the new broker from now on, the old one answers NOT_COORDINATOR
 TrigMove(c, withCancel) ==
@@ -550,7 +570,7 @@ AllDone == \A c \in Clients : cl[c].pc = "done"
 
 Next ==
   \/ \E c \in Clients :
-       \/ ConsumeCall(c) \/ JoinStale(c) \/ SyncStale(c) \/ TrigMove(c, TRUE) \/ TrigMove(c, FALSE) \/ JoinScripted(c) \/ JoinGenuine(c) \/ SyncScripted(c) \/ SyncGenuine(c) \/ SyncAbort(c)
+       \/ ConsumeCall(c) \/ (\E k \in SetupFailKinds : SetupFail(c, k)) \/ JoinStale(c) \/ SyncStale(c) \/ TrigMove(c, TRUE) \/ TrigMove(c, FALSE) \/ JoinScripted(c) \/ JoinGenuine(c) \/ SyncScripted(c) \/ SyncGenuine(c) \/ SyncAbort(c)
        \/ SetupEnter(c) \/ SetupExit(c) \/ Watcher(c) \/ Release(c) \/ CleanupExit(c)
        \/ AutoCommit(c) \/ FinalCommit(c) \/ HbStop(c) \/ RetErr(c) \/ HbGenuine(c)
        \/ TrigCancel(c) \/ TrigClose(c) \/ TrigHb(c) \/ CloseNormal(c) \/ CloseLeave(c)
@@ -572,6 +592,8 @@ CleanupAfterClaims ==
 QuickExitOnlyWhenEnding ==
   \A c \in Clients : \A p \in Parts : cl[c].cst[p] = "skip" => cl[c].ctx
 \* a claim that cannot start ends the session (else the partition stays unconsumed while heartbeats go on)
+\* a session that fails in set-up is released and Consume returns (the error)
+SetupFailureReturns == \A c \in Clients : cl[c].pc # "stuck"
 ClaimFailEndsSession ==
   \A c \in Clients : (cl[c].pc = "run" /\ cl[c].df # -1) => cl[c].ctx
 \* two members whose identity the coordinator still accepts never run claims on the same partition
